@@ -2,9 +2,11 @@
 
 Correspondence, L2/pty only: every session is a real interactive cicada on a pty, driven action by
 action next to the extracted model (ocaml/c07/drv -i). Actions are chosen online from the model's
-current state (all randomness from the seed); the schedule bits of a launch (which later stage lost
-the setpgid race against stage 0) are READ from the helpers' trace records and handed to the model,
-so the model runs under the schedule that really happened. After every action the driver waits until
+current state (all randomness from the seed). Every helper records, when it starts, its pgrp (and jc also
+tcgetpgrp(2)) in the trace: the group of a stage is checked from there too (a stage may be gone before
+the driver looks), and during a `&` launch the driver busy-samples tcgetpgrp(master) until the prompt is
+back (O4: a background job never owns the terminal, not even for a moment).
+After every action the driver waits until
 the observation has converged to the model's prediction (or a timeout), then compares
   prompt / no prompt, tcgetpgrp(master), state (R/T/Z/gone) and pgrp of every helper from
   /proc/<pid>/stat, the job lines / notices the shell printed
@@ -26,8 +28,9 @@ EXTRACT = ["C07"]
 BINS = []
 NEEDS_CICADA = True
 ALLOWED_AXIOMS = []
-PINNED = ["C07_prompt_owner", "C07_owner_cases", "C07_bg_never_owner", "C07_groups_fixed", "C07_full", "C07_refuted",
-          "C07_refuted_stray", "C07_refuted_tc", "C07_partial", "Known_C07", "C07_refuted_count_waited", "C07_nonvacuous"]
+PINNED = ["C07_prompt_owner", "C07_owner_cases", "C07_bg_never_owner", "C07_groups_fixed", "C07_full", "C07_full_holds",
+          "C07_regress_stage_outside_group", "C07_regress_count_waited", "C07_regress_stop_cont_parked",
+          "C07_regress_exit_among_stopped", "C07_regress_partial_continue", "C07_nonvacuous"]
 TRUSTED = ["Coq 8.16.1 kernel, extraction to OCaml, ocamlfind ocamlopt",
            "hand transcription of core.rs run_pipeline/run_single_program (setpgid, give_terminal_to, insert_job), "
            "execute.rs run_proc, jobc.rs, fg.rs, bg.rs, jobs.rs, main.rs read loop into Model/Term.v (tied by the pty sessions)",
@@ -38,11 +41,14 @@ ASSUMES = ["interactive shell on a Linux pty, CICADA_ENABLE_SIG_HANDLER unset (s
            "one pipeline per typed line, no capture, no functions; nothing is typed while the shell waits except Ctrl-Z / Ctrl-C",
            "pids of one session are pairwise distinct; at most one pending fatal signal per stopped process",
            "lineread's own terminal handling, real signal delivery latency and the races between setpgid / tcsetpgrp / waitpid "
-           "are sampled, not modelled, except the two oracle bits per launch (tc_ok, joined)"]
+           "are sampled, not modelled (since /repo b465168 a launch has no schedule oracle in the model)"]
 
 PROMPT = b"c07> "
 SIGNAME = {2: "Interrupt: 2", 3: "Quit: 3", 9: "Killed: 9", 15: "Terminated: 15"}
-CLASSES = ["stage_outside_group", "count_waited", "stop_cont_parked", "exit_among_stopped", "partial_continue"]
+# session features -> the (formerly) recorded classes they can explain; all five are fixed in /repo now, so
+# known_findings.txt holds no C07 class and every oracle failure is a violation. The three-way machinery stays.
+FEATURE_CLASSES = {"stage_outside_group": ["stage_outside_group"], "parked_stop_cont": ["stop_cont_parked"],
+                   "member_stop": ["count_waited", "exit_among_stopped", "partial_continue"]}
 
 
 # ------------------------------------------------------------------ the model, online
@@ -167,6 +173,23 @@ class Shell:
         except OSError:
             return -1
 
+    def sample_owners(self, nprompts, timeout):
+        """busy-sample the terminal's foreground group until the n-th prompt is there; returns the groups
+        other than the shell's that were seen"""
+        seen = set()
+        end = time.time() + timeout
+        fd, me, get = self.fd, self.pid, os.tcgetpgrp
+        while self.prompts() < nprompts and time.time() < end:
+            try:
+                for _ in range(100):
+                    o = get(fd)
+                    if o != me:
+                        seen.add(o)
+            except OSError:
+                break
+            self.pump(0)
+        return seen
+
     def new_trace(self, n, timeout):
         """wait for n more trace records; returns them as dicts (pid, pgid, tag)"""
         end = time.time() + timeout
@@ -181,8 +204,9 @@ class Shell:
         self.ntrace += n
         recs = []
         for l in new:
-            f = dict(x.split("=", 1) for x in l.split("\t")[:3])
-            recs.append({"pid": int(f["pid"]), "pgid": int(f["pgid"]), "tag": f["argv"].split(",")[-1]})
+            f = dict(x.split("=", 1) for x in l.split("\t") if "=" in x)
+            recs.append({"pid": int(f["pid"]), "pgid": int(f["pgid"]), "tag": f["argv"].split(",")[-1],
+                         "tpgid": int(f["tpgid"]) if f.get("tpgid", "").lstrip("-").isdigit() and "argv" in f and f["argv"].startswith("jc") else None})
         return recs
 
     def close(self, pids):
@@ -431,6 +455,7 @@ class Session:
         line = cmd + (" &" if bg else "")
         self.begin()
         self.type_line(line)
+        stolen = self.sh.sample_owners(self.exp_prompts + 1, 3.0) if bg else set()
         ntr = sum(1 for s in stages if s[0] != "nf")
         recs = self.sh.new_trace(ntr, 6.0)
         if recs is None:
@@ -446,28 +471,40 @@ class Session:
             if tag in bytag:
                 self.r2m[bytag[tag]["pid"]] = mp
                 self.m2r[mp] = bytag[tag]["pid"]
-        joined = []
-        for s, tag, mp in zip(stages[1:], tags[1:], mpids[1:]):
-            r = bytag[tag]
-            lead = self.m2r.get(mpids[0])
-            if r["pgid"] == lead:
-                joined.append("1")
-            elif r["pgid"] == self.sh.pid:
-                joined.append("0")
-                self.classes.add("stage_outside_group")
-            else:
-                joined.append("1")   # neither: will show as a disagreement on the pgrp
+        # what the helpers saw when they started (they may be gone before the driver looks)
+        early = []
+        lead = self.m2r.get(mpids[0])
+        for tag, mp in zip(tags, mpids):
+            r = bytag.get(tag)
+            if r is None or lead is None:
+                continue
+            if r["pgid"] != lead:
+                early.append("O3: process %d started in group %s, its pipeline is led by %d" % (mp, self.mpid_of(r["pgid"]), mpids[0]))
+                if r["pgid"] == self.sh.pid:
+                    self.classes.add("stage_outside_group")
+            if bg and r["tpgid"] is not None and r["pgid"] == lead and r["tpgid"] == r["pgid"]:
+                early.append("O4: background process %d found its own group in the foreground when it started" % mp)
+        if stolen:
+            early.append("O4: while the background job %d was launched the terminal belonged to %s" %
+                         (mpids[0], sorted(self.mpid_of(x) for x in stolen)))
         self.cmd_of_gid[mpids[0]] = cmd
         if not bg:
             self.fg_gid = mpids[0]
-        st = self.feed("L:%d:1:%s:%s" % (1 if bg else 0, ",".join(map(str, mpids)), ",".join(joined)))
+        st = self.feed("L:%d:%s" % (1 if bg else 0, ",".join(map(str, mpids))))
         for s, mp in zip(stages, mpids):
             if s[0] == "hp":
                 st = self.feed("X:%d:%d" % (mp, s[1]))
             elif s[0] == "nf":
                 st = self.feed("X:%d:1" % mp)
         self.expect(True)
-        return self.check("type %r" % line, "L")
+        ok = self.check("type %r" % line, "L")
+        if early:
+            self.oracle_fail.append({"step": len(self.steps), "do": "type %r" % line, "fails": early})
+            if self.mismatch is None and any(e.startswith("O3") for e in early):
+                self.mismatch = {"step": len(self.steps), "do": "type %r" % line, "model": self.st["raw"],
+                                 "observed": {"trace": early}, "expected_prompts": self.exp_prompts, "terminal_text": ""}
+            ok = False
+        return ok
 
     def simple(self, line, act):
         self.begin()
@@ -555,7 +592,7 @@ class Session:
                 opts += ["launch_fg"] * 4 + ["launch_bg"] * 4
             opts += ["jobs"] * 2 + ["empty", "builtin", "notfound", "fg", "bg", "fg", "bg"]
             if nlive:
-                opts += ["sigjob"] * 4 + ["exitproc"] * 2
+                opts += ["sigjob"] * 3 + ["exitproc"] * 2 + ["sigone"] * 3
             c = rng.choice(opts)
             if c in ("launch_fg", "launch_bg"):
                 n = rng.choice([1, 1, 2, 2, 3])
@@ -611,6 +648,14 @@ class Session:
                         continue        # would stay pending; keep at most one pending fatal signal per process
                     ok = self.sig(mp, signo) and ok
                 return ok
+            if c == "sigone":
+                # a signal to one member only (the member-level cases that were C06's open defects)
+                mp = rng.choice(self.live(st))
+                if st["procs"][mp][1] == "T":
+                    signo = rng.choice([18, 18, 9])
+                else:
+                    signo = rng.choice([19, 19, 9, 15])
+                return self.sig(mp, signo)
             if c == "exitproc":
                 cand = [mp for mp in self.live(st, ("R",))]
                 if not cand:
@@ -627,10 +672,9 @@ class Session:
             opts = ["Z"] * 3 + ["C"] * 3
             if members:
                 opts += ["exit_m"] * 3 + ["kill_m"] * 2
-                if len([mp for mp in st["order"] if self.leader.get(mp) == gid]) == 1:
-                    opts += ["stop_m"] * 2
+                opts += ["stop_m"] * 3
             if others:
-                opts += ["kill_o", "exit_o"]
+                opts += ["kill_o", "exit_o", "stop_o", "stop_o"]
             c = rng.choice(opts)
             if c in ("Z", "C"):
                 return self.key(c)
@@ -643,7 +687,10 @@ class Session:
             if c == "kill_m":
                 return self.sig(rng.choice(members), rng.choice([9, 15, 9]) if all(st["procs"][m][1] == "R" for m in members) else 9)
             if c == "stop_m":
-                mp = members[0]
+                mp = rng.choice(members)
+                return self.sig(mp, 19 if st["procs"][mp][1] == "R" else 18)
+            if c == "stop_o":
+                mp = rng.choice(others)
                 return self.sig(mp, 19 if st["procs"][mp][1] == "R" else 18)
             if c == "kill_o":
                 return self.sig(rng.choice(others), 9)
@@ -680,7 +727,7 @@ class Session:
     def code_of(self, mp):
         return self.codes.get(mp, 0)
 
-    # ---- scripted sessions that walk into the known C06 defects on purpose
+    # ---- scripted sessions: the four repaired C06 defects (now regressions that must hold) and clean scenarios
     def scripted(self, name):
         rng = self.rng
         ok = True
@@ -714,6 +761,17 @@ class Session:
             ok = ok and self.simple("jobs", "J")   # listed Running, the only live member is stopped
             ok = ok and self.sig(a, 9)
             ok = ok and self.simple("", "E")
+        elif name == "many_pipes":
+            # many short pipelines: every stage must start in the group of the first (b465168)
+            for i in range(10):
+                ok = self.launch([("hp", 0), ("hp", 1), ("hp", 0)], False) and ok
+            ok = self.launch([("jc", 0), ("jc", 0), ("jc", 0)], True) and ok
+            ok = self.launch([("jc", 0), ("jc", 0)], False) and ok
+            if not self.st["prompt"]:
+                ok = self.key("C") and ok
+            for mp in self.live(self.st):
+                ok = self.sig(mp, 9) and ok
+            ok = self.simple("", "E") and ok
         elif name == "fg_multi":
             # no known class: a stopped two-process background job is brought to the foreground and ends member by member
             ok = self.launch([("jc", 0), ("jc", 0)], True)
@@ -795,8 +853,8 @@ class Session:
         return {"plan": self.plan, "acts": self.acts, "typed": self.typed, "nsteps": len(self.steps), "mismatch": self.mismatch,
                 "oracle_fail": self.oracle_fail, "classes": sorted(self.classes), "infra": self.infra,
                 "last_steps": self.steps[-4:], "launches": sum(1 for a in self.acts if a.startswith("L:")),
-                "multi": sum(1 for a in self.acts if a.startswith("L:") and "," in a.split(":")[3]),
-                "stray": sum(1 for a in self.acts if a.startswith("L:") and "0" in a.split(":")[4].split(",")),
+                "multi": sum(1 for a in self.acts if a.startswith("L:") and "," in a.split(":")[2]),
+                "stray": 1 if "stage_outside_group" in self.classes else 0,
                 "states": [s["model"].split(" maps=")[0] for s in self.steps]}
 
 
@@ -839,8 +897,8 @@ def worker(spec_path, out_path):
 def run(ctx, res):
     res.rule = ("L2/pty only. A case = one action of an interactive session (5..25 actions; launch fg/bg pipeline of 1..3 stages, "
                 "Ctrl-Z, Ctrl-C, fg/bg [id|gid], jobs, empty line, failing builtin, command not found, signals/exit of members) "
-                "compared after convergence: prompt, tcgetpgrp, /proc state+pgrp of every helper, printed job lines. Schedule bits "
-                "are read from the trace. non-trivial = distinct (action kind, model state shape).")
+                "compared after convergence: prompt, tcgetpgrp, /proc state+pgrp of every helper, printed job lines; pgrp/tcgetpgrp at "
+                "helper start from the trace; owner busy-sampled during & launches. non-trivial = distinct (action kind, model state shape).")
     known = {k["class"]: k for k in C.known_findings("C07")}
     nmain = 300 if ctx.thorough else 26
     reps = 6 if ctx.thorough else 1
@@ -848,7 +906,8 @@ def run(ctx, res):
     for i in range(nmain):
         plans.append({"kind": "random", "n": ctx.rng.randrange(5, 26), "seed": ctx.rng.randrange(1 << 30)})
     for r in range(reps):
-        for name in ["count_waited", "stop_cont_parked", "exit_among_stopped", "partial_continue", "fg_multi", "ctrlz_bg_fg"]:
+        for name in ["count_waited", "stop_cont_parked", "exit_among_stopped", "partial_continue", "fg_multi", "ctrlz_bg_fg",
+                     "many_pipes", "many_pipes"]:
             plans.append({"kind": "scripted", "name": name, "seed": ctx.rng.randrange(1 << 30)})
     if ctx.replay:
         rp = json.load(open(ctx.replay))
@@ -907,7 +966,7 @@ def run(ctx, res):
         if r["mismatch"]:
             at = r["mismatch"]["step"]
             wrong = [(msg, do) for c, msg, do in attributed if do >= at] + [x for x in unattributed if x[1] < at]
-            if not wrong and r["classes"]:
+            if not wrong and any(c in known for f in r["classes"] for c in FEATURE_CLASSES.get(f, [])):
                 accepted.append({"classes": r["classes"], "typed": r["typed"], "note": "the implementation leaves the faithful "
                                  "model in a session of a known class and satisfies the property oracle there (repaired)"})
                 for c, msg, do in attributed:
@@ -939,7 +998,7 @@ def run(ctx, res):
         raise C.Infra("C07: %d of %d sessions could not be driven (pty / trace machinery)" % (infra, len(results)))
     res.count("L2_pty_steps", steps)
     res.extra["c07"] = {"sessions": len(results), "sessions_not_driven": infra, "launches": launches, "multi_stage_launches": multi,
-                        "launches_with_a_stage_outside_its_group": stray, "accepted_as_repaired": accepted[:6]}
+                        "sessions_with_a_stage_outside_its_group": stray, "accepted_as_repaired": accepted[:6]}
     for r in results[:3]:
         res.sample({"typed": r["typed"][:10], "last_state": r["states"][-1] if r["states"] else ""})
 
